@@ -3,6 +3,7 @@ package props
 import (
 	"fmt"
 	"go/token"
+	"go/types"
 	"strings"
 
 	"mrocheck/an"
@@ -38,6 +39,8 @@ func runC06(c *an.Ctx) {
 	ruleF8(c)
 	ruleF9(c)
 	ruleF10(c)
+	ruleF11(c)
+	ruleF12(c)
 }
 
 func existsCallOf(p *an.Prog, v ssa.Value, file string) bool {
@@ -504,9 +507,24 @@ func ruleF4(c *an.Ctx) {
 		n := 0
 		an.Instrs(doChunks, func(in ssa.Instruction) {
 			call, ok := in.(*ssa.Call)
-			if !ok || call.Call.StaticCallee() == nil || call.Call.StaticCallee().Name() != "ReadInto" ||
-				!an.IsConst(call.Call.Args[1], p.Const(pkgCore, "StageDefsFile")) {
+			if !ok || call.Call.StaticCallee() == nil {
 				return
+			}
+			direct := func(x ssa.Instruction) bool {
+				cl, ok := x.(*ssa.Call)
+				return ok && cl.Call.StaticCallee() != nil && cl.Call.StaticCallee().Name() == "ReadInto" && len(cl.Call.Args) > 1 &&
+					an.IsConst(cl.Call.Args[1], p.Const(pkgCore, "StageDefsFile"))
+			}
+			if !direct(call) {
+				// a helper of the package that reads the file on every path and hands back the error
+				h := call.Call.StaticCallee()
+				res := h.Signature.Results()
+				if h.Blocks == nil || h.Pkg != doChunks.Pkg || res.Len() != 1 || !isErrorT(res.At(0).Type()) {
+					return
+				}
+				if md := (&an.MustDo{Pred: direct, Depth: 0}); !md.Fn(h) {
+					return
+				}
 			}
 			n++
 			for _, b := range doChunks.Blocks {
@@ -726,4 +744,9 @@ func ruleF6(c *an.Ctx) {
 			}
 		}
 	}
+}
+
+func isErrorT(t types.Type) bool {
+	n, ok := t.(*types.Named)
+	return ok && n.Obj().Pkg() == nil && n.Obj().Name() == "error"
 }
